@@ -640,6 +640,9 @@ func (t *T) Context() context.Context {
 		cancel()
 		return ctx
 	}
+	if verifOn {
+		verifAt("ctx.checked")
+	}
 
 	// Slow path: lock and check again, create new context if needed.
 	t.mu.Lock()
